@@ -1,5 +1,6 @@
 use crate::util::*;
 use engeom::Curve2;
+use engeom::geom2::Line2;
 use serde_json::{json, Value};
 
 fn next_after(x: f64, up: bool) -> f64 {
@@ -46,13 +47,19 @@ pub fn run(k: &str, c: &Value) -> Value {
             let edge_sub = match (curve.at_length(l0), curve.at_length(l1)) {
                 (Some(a), Some(b)) if (a.point() - b.point()).norm() > 1e-9 => {
                     let (pa, pb) = (a.point(), b.point());
-                    let frac = c["frac"].as_f64().unwrap_or(0.4);
+                    let frac = if c["frac"].is_null() { 0.4 } else { fx(&c["frac"]) };
                     let st = |f: engeom::Point2, t: engeom::Point2| engeom::airfoil::InscribedCircle::new(
                         engeom::geom2::polyline2::SpanningRay::new(f, t), t, f, engeom::Circle2::new(0.5 * (f.x + t.x), 0.5 * (f.y + t.y), 0.5));
                     let run = |f: engeom::Point2, t: engeom::Point2| match std::panic::catch_unwind(std::panic::AssertUnwindSafe(||
                         engeom::airfoil::helpers::extract_edge_sub_curve(&curve, &st(f, t), Some(frac)))) { Ok(r) => ocv(&r), Err(_) => json!({"panic": true}) };
-                    json!({"la": hx(curve.at_closest_to_point(&pa).length_along()), "lb": hx(curve.at_closest_to_point(&pb).length_along()),
-                           "frac": hx(frac), "fwd": run(pa, pb), "rev": run(pb, pa)})
+                    // the two arc lengths exactly as the function finds them (origin, and origin + direction, of the station's ray): on a
+                    // curve that passes through one place twice the closest station is a tie that the last bit decides
+                    let ends = |f: engeom::Point2, t: engeom::Point2| { let s = st(f, t);
+                        (curve.at_closest_to_point(&s.spanning_ray.origin()).length_along(),
+                         curve.at_closest_to_point(&(s.spanning_ray.origin() + s.spanning_ray.dir())).length_along()) };
+                    let (fa, fb) = ends(pa, pb);
+                    let (ra, rb) = ends(pb, pa);
+                    json!({"la": hx(fa), "lb": hx(fb), "ra": hx(ra), "rb": hx(rb), "frac": hx(frac), "fwd": run(pa, pb), "rev": run(pb, pa)})
                 }
                 _ => Value::Null };
             json!({"src": cv(&curve), "l0": hx(l0), "l1": hx(l1), "lc": hx(lc), "s0": at(l0), "s1": at(l1), "edge_sub": edge_sub,
